@@ -55,12 +55,12 @@ func TestMain(m *testing.M) {
 	evid.Tests(
 		evid.Spec{Name: "TestReplay", Kind: "plain", QuickShards: 1, ThoroughShards: 1},
 		evid.Spec{Name: "TestModelExhaustive", Kind: "plain", QuickShards: 1, ThoroughShards: 1},
-		evid.Spec{Name: "TestExhaustiveHistories", Kind: "plain", QuickShards: 12, ThoroughShards: 16, TimeoutS: 3000},
+		evid.Spec{Name: "TestExhaustiveHistories", Kind: "plain", QuickShards: 16, ThoroughShards: 16, TimeoutS: 3000},
 		evid.Spec{Name: "TestExhaustivePermutations", Kind: "plain", QuickShards: 4, ThoroughShards: 16, TimeoutS: 3000},
 		evid.Spec{Name: "TestPropRandomHistories", Kind: "rapid", Quick: 16000, Thorough: 400000, QuickShards: 8, ThoroughShards: 16},
 		evid.Spec{Name: "TestPropUncontrolled", Kind: "rapid", Quick: 1600, Thorough: 40000, QuickShards: 8, ThoroughShards: 16},
 	)
-	evid.Note("rule", "A case = writer (WriteFasta, WriteFastq, WriteJSON, WriteCSV, WriteSequence, WriteSeqFileChunk) x n batches with a record count each (0 = empty batch) x arrival permutation x gzip on/off x CloseFile on/off. Controlled cases use one formatting worker, so the push order is the arrival order at the writer goroutine; a small model of the re-sequencing buffer derives from the permutation which chunks are buffered and how long each drained run is. Exhaustive: every permutation x every subset of empty batches x 6 writers x gzip x close for n<=4 (quick) / n<=5 (thorough), and every permutation for n<=6 / n<=7 with two empty patterns; random histories up to 12 batches with record sizes that cross the 4 KiB buffer of the stream wrapper; uncontrolled runs with 2..8 formatting workers, unequal batch sizes and schedule jitter. Oracle: the bytes received by the harness io.WriteCloser (gunzipped with compress/gzip when compression is on) re-read with independent parsers: FASTA/FASTQ ids, sequences, qualities in batch order each exactly once; encoding/json accepts the whole JSON output as one array whose i-th object is the i-th record; encoding/csv reads one header row then one row per record in order; Close exactly once after the last byte when CloseFile is requested, never otherwise, and nothing missing when the pipes are unregistered. Non-trivial = controlled history in which some batch k+1 reaches the writer before batch k (the buffered branch runs). Distinct = hash of (writer, record counts, arrival, options).")
+	evid.Note("rule", "A case = writer (WriteFasta, WriteFastq, WriteJSON, WriteCSV, WriteSequence, WriteSeqFileChunk) x n batches with a record count each (0 = empty batch) x arrival permutation x gzip on/off x CloseFile on/off. Controlled cases use one formatting worker, so the push order is the arrival order at the writer goroutine; a small model of the re-sequencing buffer derives from the permutation which chunks are buffered and how long each drained run is. Exhaustive: every permutation x every subset of empty batches x 6 writers x gzip x close for n<=5 (quick) / n<=6 (thorough), and every permutation for n=6 / n=7..8 with three empty patterns (none, even batches, odd batches); random histories up to 12 batches with record sizes that cross the 4 KiB buffer of the stream wrapper; uncontrolled runs with 2..8 formatting workers, unequal batch sizes and schedule jitter. Oracle: the bytes received by the harness io.WriteCloser (gunzipped with compress/gzip when compression is on) re-read with independent parsers: FASTA/FASTQ ids, sequences, qualities in batch order each exactly once; encoding/json accepts the whole JSON output as one array whose i-th object is the i-th record; encoding/csv reads one header row then one row per record in order; Close exactly once after the last byte when CloseFile is requested, never otherwise, and nothing missing when the pipes are unregistered. Non-trivial = controlled history in which some batch k+1 reaches the writer before batch k (the buffered branch runs). Distinct = hash of (writer, record counts, arrival, options).")
 	evid.Main(m, "C04")
 }
 
